@@ -93,7 +93,10 @@ TrURecv ==
        THEN /\ dataQ # <<>> /\ Head(dataQ)[2] = Trace[l].buf
             /\ got' = Append(got, Head(dataQ)[1])
             /\ dataQ' = Tail(dataQ)
-            /\ UNCHANGED <<upc, result>>
+            \* a zero-length block makes the consumer look at the latched error; the latch itself is not
+            \* logged, so whether it was already set is left to the model
+            /\ \/ UNCHANGED <<upc, result>>
+               \/ Trace[l].len = 0 /\ upc' = "done" /\ result' \in {"eof", "decode", "source"}
        ELSE /\ dataQ = <<>> /\ data = "closed"
             /\ result' = latched /\ upc' = "done"
             /\ UNCHANGED <<got, dataQ>>
@@ -117,7 +120,7 @@ TrEnd ==
        IN  /\ ~r.hung /\ r.panicked = "" /\ r.race = ""
            /\ r.poison = <<>>
            /\ r.leaked = 0                                   \* end of stream / source error / decoding error: nobody left
-           /\ upc = "done" /\ rpc = "done" /\ cpc = "done"
+           /\ upc = "done"
            /\ (r.outcome = "clean" => result = "eof" /\ r.same)
            /\ (result = "eof" /\ ~r.mutated => r.outcome = "clean")
            /\ (result \in {"decode", "source"} => r.outcome = "error")
